@@ -50,7 +50,7 @@ def run_case(spec):
             return {'status': 'violation', 'sig': tag + '|optimum reported for an infeasible model', 'ops': ops,
                     'detail': 'rsome %.8g' % r['value']}
         return {'status': 'vacuous', 'outcome': 'reference ' + ref['status'], 'ops': ops}
-    tol = 1e-5 * (1 + abs(ref['value']))
+    tol = (1e-5 if spec.get('solver', 'def') == 'def' else 1e-4) * (1 + abs(ref['value']))
     diff = r['value'] - ref['value']
     if abs(diff) > tol:
         sgn = 1 if spec['obj']['kind'] in ('min', 'minsup') else -1
